@@ -110,7 +110,7 @@ def inconclusive(chk, what, detail=""):
 # classes with an in-place re-parameterisation (event sN:P): RNSsystem::setPrimes, Modular<T>::read(istream&), Modular<Log16>::read
 # (Modular<int8_t|uint8_t>::read extracts the modulus into an unsigned char, i.e. reads ONE CHARACTER: "(z, 11)" gives the ring modulo '1' = 49 --
 #  an input-format defect outside this property; the object it leaves is consistent, so the 8-bit rings are not driven through read)
-MUTABLE = ["GFqDom<int64_t>", "GFqDom<int32_t>", "ModularExtended<double>", "ModularExtended<float>", "Modular<int16_t>", "Modular<uint16_t>", "Modular<int32_t>", "Modular<uint32_t>", "Modular<int64_t>", "Modular<uint64_t>", "Modular<float>", "Modular<double>",
+MUTABLE = ["Poly1Dom<Modular<double>,Dense>", "Poly1FactorDom<Modular<double>,Dense>", "GFqDom<int64_t>", "GFqDom<int32_t>", "ModularExtended<double>", "ModularExtended<float>", "Modular<int16_t>", "Modular<uint16_t>", "Modular<int32_t>", "Modular<uint32_t>", "Modular<int64_t>", "Modular<uint64_t>", "Modular<float>", "Modular<double>",
            "Modular<Integer>", "Modular<Log16>", "RNSsystem<Integer,Modular<double>>"]
 MUT_DIRECTED = [
     "c0:A s0:B", "c0:A s0:B s0:A", "c0:B s0:C s0:B s0:C", "c0:A s0:D s0:A", "c0:A s0:A", "c0:C s0:B s0:C",
@@ -251,6 +251,8 @@ def structural_c16(chk, descs):
     """turn the decisions on the description into verdict items.  returns counters"""
     n_meth = n_ok = 0
     partial = []
+    partial_setters = []
+    chk.cov["partial_setters_decided"] = partial_setters
     for d in descs:
         mi = om.Mirror(d)
         name = d["name"]
@@ -317,6 +319,18 @@ def structural_c16(chk, descs):
                            "%s is a %s of the argument `%s`" % (a["member"], a["form"], a["param"]),
                            "description generated from the source: the member shares storage with an object the caller still owns; overwriting, reusing or destroying the "
                            "argument changes the object (C16_arg_shared_refuted exhibits the failing history: Construct, Outside, Use)")
+        # partial setters (a member that rewrites ONE construction parameter from its argument: setdomain, setIndeter): everything co-dependent
+        # with what they set (derived by some constructor from the same constructor parameter) must be rewritten too
+        for m in d["methods"]:
+            if mi.is_partial_setter(m):
+                partial_setters.append("%s::%s sets %s" % (name, m["name"], ",".join(m.get("definite_writes", []))))
+                miss = mi.partial_setter_missing(m)
+                if miss:
+                    chk.fail_input(om.msite(m), "partial-setter-leaves:" + ",".join(miss),
+                                   {"class": name, "method": om.mname(m), "sets": m.get("definite_writes"), "co_dependent": sorted(mi.setter_closure(m))},
+                                   "a member that rewrites a construction parameter from its argument rewrites every member the constructors derive from the same parameter",
+                                   "%s leaves %s" % (m["name"], ",".join(miss)),
+                                   "description generated from the source: after %s the object is not the object a constructor would build from the new parameter" % m["name"])
         for m in mi.mutator_offenders():
             miss = mi.mutator_missing(m)
             chk.fail_input(om.msite(m), "mutator-leaves:" + ",".join(miss),
